@@ -622,6 +622,37 @@ def _wrapper_worker(job):
                         S.refine_cell(e2, first, B.cls_of_chars(ch))
                         if not e2.dead:
                             variants.append((e2, v, ' first character %r' % ch))
+            # the number as it was written before validate() normalised it further (padding, re-casing): the wrapper is given that too
+            for f_ in e1.facts:
+                if isinstance(f_, tuple) and f_ and f_[0] == 'inputstr' and isinstance(f_[1], Str) and f_[1].sid != v.sid:
+                    s_in = f_[1]
+                    if s_in.fixed:
+                        cands_ = [s_in] if tuple(s_in.pre) != tuple(v.pre if v.fixed else ()) else []
+                    else:
+                        top_ = s_in.hi if s_in.hi is not None else (len(v.pre) if v.fixed else v.hi)
+                        cands_ = list(range(max(s_in.lo or 0, 1), top_ + 1)) if top_ is not None and top_ - (s_in.lo or 0) <= 20 else []
+                    for cand in cands_:
+                        e_in = e1.copy()
+                        c_in = cand if isinstance(cand, Str) else S.materialise(e_in, s_in, cand)
+                        if c_in is None or e_in.dead:
+                            continue
+                        if not isinstance(cand, Str):
+                            c_in.sid = fresh_id()
+                        S.refine_all(e_in, c_in, S.ASCII)
+                        if e_in.dead:
+                            continue
+                        if not isinstance(cand, Str):
+                            # a length of the written form is only a witness when the constituent itself accepts it
+                            ek_ = e_in.copy()
+                            ek_.frames = [{}]
+                            I.ctx.scopes = [[]]
+                            I.ctx.stack = [(K, '<entry>')]
+                            I.closures = []
+                            I.memo = {}
+                            ko_ = I.call_func(Func(rk[1], rk[2]), [c_in] + entry_args(I, knode, ek_)[1:], {}, knode, ek_, multi=True)
+                            if not (isinstance(ko_, list) and ko_):
+                                continue
+                        variants.append((e_in, c_in, ' as written (before validate() normalised it)'))
             for e2, vv, note in variants:
                 out['shapes'] += 1
                 e = e2.copy()
@@ -816,6 +847,8 @@ def _conversion_worker(job):
                         if target:
                             rt = prog.resolve_name(prog.mods[target], 'validate')
                             tnode = prog.mods[rt[1]].funcs[rt[2]]
+                            rec['target_prevalidated'] = ('validated', rt[1], skey(cv)) in ce.facts or \
+                                (rt[1] == rv[1] and cv.fixed and v.fixed and tuple(cv.pre) == tuple(v.pre))     # the accepted value itself
                             e3 = ce.copy()
                             e3.frames = [{}]
                             I.ctx.scopes = [[]]
